@@ -348,6 +348,7 @@ def c17(tier, seed):
                  filter={"style": "new", "sel": 1, "oth": 1}),
         scenario("catdate_x_cat.ins", [cat("A", 3, date=True), cat("B", 3)], population=90),
         scenario("cat_1d.ins", [cat("A", 4, miss=[3])], population=12, filter={"style": "old", "fn": 1, "un": 3}),
+        scenario("catdate_1d.ins", [cat("A", 4, miss=[1], date=True)], population=40),
     ], 6 if tier == "quick" else 30, seed)
     return dict(
         jobs=_value_jobs("C17", "c17", scns + ins + C.fractional(scns[:3] + ins[:1]), tier, seed,
